@@ -444,7 +444,13 @@ class Gen:
       self._prefer = v
     # in
     if self.on('in', 0.4):
-      if ints and rng.random() < 0.4:
+      if ints and 'arith' in self.mask and rng.random() < 0.25:
+        # a computed element tested against a list with repeated values: every occurrence counts
+        xv = rng.choice(ints)
+        vals = [rng.choice(INT_DOM) for _ in range(rng.randint(2, 4))]
+        vals.append(rng.choice(vals))
+        conj.append({'in': [OP(rng.choice(['+', '-', '*']), V(xv), L(rng.choice([0, 1, 2]))), L(vals)]})
+      elif ints and rng.random() < 0.4:
         conj.append({'in': [V(rng.choice(ints)), L(sorted(rng.sample(INT_DOM, rng.randint(1, 3))) + ([rng.choice(INT_DOM)] if rng.random() < 0.3 else []))]})
       else:
         v = self.fresh('i')
